@@ -63,8 +63,8 @@ def run(ctx):
                 "SimpleService.start_announce/stop_announce against a real announcer; non-trivial = distinct scenario with at least one transmission")
     ctx.assumptions = ["an instance is announced at most once at a time", "schedule clauses are judged when the oracle draws are all equal (otherwise only the model comparison applies)"]
     n = 300 if quick else 10000
-    scs = stackprop.corpus_scenarios("C10") + [scen.server_scenario(r) for _ in range(n)]
-    stackprop.run_scenarios(ctx, scs, 3010, CODES, what="offer lifecycle")
+    scs = stackprop.corpus_scenarios("C10") + [scen.server_scenario(r) if k % 2 else scen.lifecycle_scenario(r) for k in range(n)]
+    stackprop.run_scenarios(ctx, scs, 3010, CODES, known_codes={15: "F15"}, what="offer lifecycle")
     exc = simple_service_stop_announce()
     ctx.case("simple-service-stop-announce", kind="simple-service-helper")
     if exc is not None:
